@@ -236,6 +236,15 @@ func (e *FuncEnc) staticCall(in ssa.Instruction, f *ssa.Function, bindings []ssa
 	if e.W != nil {
 		c = e.W.ContractFor(f)
 	}
+	if e.W != nil && e.W.InlineSmall && isModuleFn(e.W, f) && (c == nil || (c.Options["env"] == "true" && len(c.Requires) == 0 && len(c.Ensures) == 0 && c.RetHook == nil)) && inlinable(f) && e.inlineDepth < 3 {
+		if c != nil && c.PreHook != nil {
+			for _, nf := range c.PreHook(e, args) {
+				e.obligeKeep("call:"+f.Name(), "requires:"+nf.Name, nf.Formula, in.Pos())
+			}
+		}
+		e.inlineCall(f, bindings, args, res)
+		return
+	}
 	if c != nil {
 		e.contractCall(in, f, c, bindings, argVals, args, rts, res)
 		return
@@ -545,5 +554,52 @@ func (e *FuncEnc) encodeAppend(in ssa.Instruction, c *ssa.CallCommon, args []str
 		// everything that is not an element cell of the result array is unchanged
 		e.emit(fmt.Sprintf("(assert (forall ((a Int)) (! (=> (not (= (elem_base %s) %s)) (= (select %s a) (select %s a))) :pattern ((select %s a)))))", lf.root("a"), rb, nu, old, nu))
 		e.preservePrivate(lf.key, old, nu)
+	}
+}
+
+// inlinable: a single-block leaf function (no loops, no calls except builtins
+// and library models) of at most 24 instructions.
+func inlinable(f *ssa.Function) bool {
+	if len(f.Blocks) != 1 || len(f.Blocks[0].Instrs) > 24 || f.Recover != nil {
+		return false
+	}
+	for _, in := range f.Blocks[0].Instrs {
+		switch x := in.(type) {
+		case *ssa.Call:
+			if _, ok := x.Call.Value.(*ssa.Builtin); !ok {
+				return false
+			}
+		case *ssa.Defer, *ssa.Go, *ssa.MakeClosure, *ssa.Panic, *ssa.RunDefers:
+			return false
+		}
+	}
+	return true
+}
+
+// inlineCall symbolically executes the callee's single block in place
+// (Boogie-style {:inline}); its safety obligations become the caller's.
+func (e *FuncEnc) inlineCall(f *ssa.Function, bindings []ssa.Value, args []string, res ssa.Value) {
+	e.inlineDepth++
+	defer func() { e.inlineDepth-- }()
+	for i, p := range f.Params {
+		if i < len(args) {
+			e.val[p] = args[i]
+		}
+	}
+	for i, fv := range f.FreeVars {
+		if i < len(bindings) {
+			e.val[fv] = e.v(bindings[i])
+		}
+	}
+	for _, in := range f.Blocks[0].Instrs {
+		if ret, ok := in.(*ssa.Return); ok {
+			var rs []string
+			for _, r := range ret.Results {
+				rs = append(rs, e.v(r))
+			}
+			e.setResult(res, rs)
+			return
+		}
+		e.encodeInstr(in)
 	}
 }
